@@ -183,6 +183,17 @@ def work_engine(task):
                     t2 = "0 0 aset" + "".join(" %d add" % a for a in items)
                     s2 = set(s1)
                     ev.label("equal-set-built-differently")
+                elif rnd.random() < 0.5 and len(runs_of(s1)) >= 2:
+                    # almost the same set: the same runs at the same starts, one of them (not necessarily the last) an
+                    # address shorter or longer
+                    rs = runs_of(s1)
+                    a, b = rnd.choice(rs)
+                    if rnd.random() < 0.5 and b - a >= 2:
+                        t2, s2 = "%s %d sub" % (t1, b - 1), s1 - {b - 1}
+                    elif b not in s1 and b + 1 not in s1 and b < U64 - 1:
+                        t2, s2 = "%s %d add" % (t1, b), s1 | {b}
+                    if len(runs_of(s2)) == len(rs) and s2 != s1:
+                        ev.label("same-starts-one-run-differs")
                 q = ("%s %s (|X Y| [X Y ?eq] [X Y !eq] [X Y ?contains] [X Y !contains] [X Y ?overlaps] [X Y !overlaps] "
                      "[(X == Y)] [(X != Y)] [X Y ?lt] [X Y ?gt])") % (t1, t2)
                 r = drv.run(q, limit=10)
@@ -442,6 +453,7 @@ def main(tier, seed):
                                 "exhaustive=true refers to the BFS sub-space"],
                    health={"bfs ran": ev.extra.get("bfs_evaluations", 0) > 0,
                            "differently-built equal sets compared": ev.labels.get("equal-set-built-differently", 0) > 0,
+                           "pairs of sets that differ in the length of one run only": ev.labels.get("same-starts-one-run-differs", 0) > 80,
                            "wide sets: totals in [2^31, 2^32), [2^32, 2^63) and beyond, also made of several runs":
                            all(ev.labels.get("wide:" + k, 0) > 50 for k in ("<2^32", "<2^63", ">=2^63", "several-runs"))})
     import json
